@@ -13,12 +13,17 @@ STDS = {'quick': ('gnu++17',), 'thorough': ('gnu++17', 'gnu++14', 'gnu++20')}
 _model_cache = {}
 
 
-def model(tier):
+def model(tier, std=None):
     stds = STDS[tier]
-    if stds not in _model_cache:
-        p = facts.load_program(stds)
-        _model_cache[stds] = Model(p)
-    return _model_cache[stds]
+    key = (stds, std)
+    if key not in _model_cache:
+        if stds not in _program_cache:
+            _program_cache[stds] = facts.load_program(stds)
+        _model_cache[key] = Model(_program_cache[stds], std)
+    return _model_cache[key]
+
+
+_program_cache = {}
 
 
 def dropped_cells_result(m, families=None, rule='WITNESS'):
@@ -424,6 +429,30 @@ def run(prop, tier, only, t0):
             flat.extend(r)
         elif r is not None:
             flat.append(r)
+    if tier == 'thorough' and prop != 'C20':
+        # the same rules on the facts extracted under the other language standards (temporaries, copy elision
+        # and library internals change the AST/CFG); results are merged per rule
+        for std in STDS[tier][1:]:
+            m2 = model(tier, std)
+            more = []
+            for r in spec['fn'](m2, 'quick'):
+                if isinstance(r, (list, tuple)):
+                    more.extend(r)
+                elif r is not None:
+                    more.append(r)
+            byrule = {r.rule: r for r in flat}
+            for r in more:
+                if r.rule in byrule:
+                    b = byrule[r.rule]
+                    b.sites += r.sites
+                    b.obligations += r.obligations
+                    b.discharged += r.discharged
+                    b.findings.extend(r.findings)
+                    b.inconclusive.extend('[%s] %s' % (std, x) for x in r.inconclusive)
+                    b.functions |= r.functions
+                    b.notes.append('also evaluated on -std=%s facts: %d sites' % (std, r.sites))
+                else:
+                    flat.append(r)
     if only:
         flat = [r for r in flat if r.rule == only or r.rule.startswith(only)]
     extra = {}
